@@ -23,7 +23,21 @@ PROP = {
         "Frp.C10.Conc.step_failure_releases", "Frp.C10.Conc.run_conflict_restores", "Frp.C10.Conc.close_spec",
         "Frp.C10.Conc.sessionEnd_spec", "Frp.C10.Conc.retry_succeeds", "Frp.C10.Conc.quiescent_clean",
         "Frp.C10.Conc.accounted_sound",
+        # work connections of http / udp proxies: close propagation (over C01's close graphs) and lifecycle
+        # (Frp/Model/WorkConns.lean, Frp/Props/C10Xport.lean)
+        "Frp.C10.Xport.http_workconn_closed_once", "Frp.C10.Xport.udp_workconn_closed", "Frp.C10.Xport.reached_spec",
+        "Frp.C10.Xport.reached_pos", "Frp.C10.Xport.var_capture_never_closes",
+        "Frp.C10.Xport.var_capture_harmless_without_limit", "Frp.C10.Xport.reached_current",
+        "Frp.C10.Xport.winv_reachable", "Frp.C10.Xport.released_closed", "Frp.C10.Xport.idle_all_closed",
+        "Frp.C10.Xport.session_end_closes",
+        # UDPProxy.Close racing its own reader (Frp/Model/UdpCloseRace.lean): defect witness, bound, repaired clause
+        "Frp.C10.Xport.late_workconn_witness", "Frp.C10.Xport.late_workconn_full_fails",
+        "Frp.C10.Xport.late_workconn_bound", "Frp.C10.Xport.repaired_no_late_workconn",
+        # session end racing the session's own registration (Frp/Model/SessDrop.lean, Frp/Props/C10Drop.lean)
+        "Frp.C10.Drop.dinv_reachable", "Frp.C10.Drop.drop_idle_spec", "Frp.C10.Drop.drop_pending_unchanged",
+        "Frp.C10.Drop.gone_clean", "Frp.C10.Drop.gone_within_two", "Frp.C10.Drop.quiescent_empty",
     ],
+    "extra_targets": ["Frp.Props.C10Xport", "Frp.Props.C10Drop"],
     "engines": [
         {"name": "release", "quick_n": 6000, "thorough_n": 30000, "thorough_seeds": 5,
          "nontrivial": nontrivial,
@@ -35,6 +49,13 @@ PROP = {
          "nontrivial": lambda tok, res: (tok[0] in ("begin", "step") and res not in ("noflight", "busy"))
          or (tok[0] == "view" and res != "tcp[]udp[]http[]visitor[]names[]quota[1=0,2=0,3=0]"),
          "result_class": lambda r: "view" if r.startswith("tcp[") else r[:14]},
+        {"name": "xport", "quick_n": 320, "thorough_n": 1600, "thorough_seeds": 3,
+         "nontrivial": lambda tok, res: (tok[0] in ("req", "drop") and "c=-" not in res and res != "none")
+         or (tok[0] == "census" and res != "idle=0") or tok[0] == "udpx" and res == "got=1",
+         "result_class": lambda r: "census" if "idle=" in r else r[:14]},
+        {"name": "xprace", "quick_n": 2, "thorough_n": 12, "thorough_seeds": 2,
+         "nontrivial": lambda tok, res: tok[0] == "closerace",
+         "result_class": lambda r: r[:14]},
     ],
     "rule": "release engine: generated histories of register (http with several domains x locations, https, "
             "tcpmux, stcp, sudp, xtcp; duplicate and conflicting routes so that registrations fail at the 1st, "
@@ -49,7 +70,21 @@ PROP = {
             "end; every failure step is hit (quota, exists, conflict inside Run, name taken at Add); `view` dumps "
             "port tables, routes, visitor listeners, name table with owners and every session's quota counter "
             "(Control.portsUsedNum); each answer is also judged on a record built from the implementation's own "
-            "answers (tables and counters = what the record accounts for; every refusal justified by it). "
+            "answers (tables and counters = what the record accounts for — nothing of an ended session —; every refusal "
+            "justified by it). xport engine: real http proxies (custom domain) behind a real http.Server + "
+            "vhost.HTTPReverseProxy and real udp proxies (server-chosen port) of two real Control sessions, all 8 "
+            "combinations of useEncryption / useCompression / server-side bandwidth limit; the harness is frpc: it answers "
+            "every ReqWorkConn with a loopback TCP work connection (Control.RegisterWorkConn) whose frps end COUNTS the "
+            "Close() calls reaching it, reads StartWorkConn, mirrors the client stack and plays the backend; exchanges "
+            "ending in six ways (Content-Length + Connection: close; body ended by EOF; keep-alive then idle close by the "
+            "backend; 101 upgrade + echo; CONNECT + echo through io.Join; user aborts an unanswered request), datagrams "
+            "echoed through the udp work connection, udp work connections dropped by frpc (replacement), close by owner / "
+            "foreign session, re-registration, session end; every answer carries what reached the work connection within a "
+            "bounded wait (0 / 1 / n / + for a stack without close-once wrapper) and `census` lists every work connection "
+            "ever handed to a proxy plus pooled ones of ended sessions; judged on the implementation's own answer: let-go "
+            "connections closed, exactly once when guarded. xprace engine: k udp proxies closed explicitly while frpc keeps "
+            "their work connections: does frps take a work connection for a closed proxy and leave it open (known finding "
+            "C10-udp-close-late-workconn, relational). "
             "Non-trivial = every registration attempt / section, session end and non-empty view; distinct = "
             "distinct (op line, result)",
     "trusted": COMMON_TRUST + [
@@ -57,25 +92,36 @@ PROP = {
         "read-only dump hooks (tag verif): vhost.Routers/Muxer.VerifDump, visitor.Manager.VerifNames, "
         "proxy.Manager.VerifNames, nathole.Controller.VerifClients, ports.Manager.VerifDump",
         "model Frp/Model/RegSteps.lean written by hand; tied by the regrace engine through the gates reg.checked / "
-        "reg.ran (verifhook, tag verif) and proxy.Manager.VerifDump; Control.portsUsedNum is read through reflection",
+        "reg.ran / reg.added (verifhook, tag verif) and proxy.Manager.VerifDump; Control.portsUsedNum is read through reflection",
+        "models Frp/Model/SessDrop.lean (Dispatcher.readLoop runs handleNewProxy synchronously, so worker's teardown follows "
+        "the registration), Frp/Model/WorkConns.lean (lifecycle bookkeeping of top closes; graphs from C01's "
+        "Frp/Model/CloseGraph.lean) and Frp/Model/UdpCloseRace.lean written by hand; tied by the regrace / xport / xprace engines",
+        "xport: the scripted frpc end (stack mirrored with golib's real WithEncryption / WithCompression) and the counting "
+        "net.Conn handed to Control.RegisterWorkConn; bounded waits of 1.5 s for a close that must happen",
     ],
     "assumptions": [
         "goroutine / file-descriptor footprint over repeated cycles is not measured by this check (runtime, not logic)",
-        "group membership release is covered by C13's model; pooled work connections by C11's; idle backend "
-        "connections of the HTTP transport by C02's; wrapped transports (close graph) by C01's",
+        "group membership release is covered by C13's model (tcp groups' ports: Ports model, ports engine); pooled "
+        "work connections by C11's (xport only counts pooled connections of ended sessions still open); idle backend "
+        "connections of the HTTP transport by C02's (xport ends every exchange so that the connection is not kept idle); "
+        "close graphs of the tcp-like proxy types, the client side and the visitor leg by C01's",
+        "xport: a udp proxy is closed / its session ended only after its current work connection is attached (it carried a "
+        "datagram): the window between StartWorkConn and the unsynchronised assignment of pxy.workConn is not scheduled "
+        "(no gate there); a work connection frps takes for an already closed udp proxy is closed by the frpc end as the "
+        "real frpc does — that defect is exhibited separately by xprace (KNOWN_FINDINGS C10-udp-close-late-workconn)",
         "registration and closure of one session are sequential (Control handles its messages one at a time); "
         "registrations of DIFFERENT sessions interleave section by section (quota+Exist | Run | Add): the "
-        "cross-session name race is inside this check; session end while the session's own RegisterProxy is "
-        "still running is C12's",
+        "cross-session name race is inside this check, and so is session end while the session's own RegisterProxy "
+        "is parked between two sections (SessDrop); a new login replacing the session at that moment is C12's",
         "regrace: ports are requested explicitly and nobody else binds them (the port manager with random "
         "ports and foreign sockets is the ports engine's)",
     ],
 }
 
 META = {
-    "engine": "lean+harness(release, ports, regrace)",
+    "engine": "lean+harness(release, ports, regrace, xport, xprace)",
     "design_ref": "DESIGN.md §6 C10",
-    "technique": "Lean 4 invariant + exact-state theorems (register∘close = id; failed registration = id; session end = filter) over all histories + differential correspondence with the real Control / ResourceController tables",
-    "text": "Proof: in the model of the server's exclusive-key tables (http/https/tcpmux routes, visitor and NAT-hole listeners, proxy names) and of the port manager, for every reachable state: a registration that conflicts at any claim leaves the state exactly as before; explicit close removes exactly the closing proxy's keys and only for the owning session; register followed by close is the identity on the whole state (no table growth, identical re-registration succeeds on any session); session end removes exactly the keys and names of that session's proxies and nothing of other sessions; ports are free immediately after close and all accounting is unchanged by a failed registration (C09 theorems). For registrations of several sessions running concurrently (small-step model: quota charge + Exist | Run | Add, every interleaving by induction over op lists): tables stay consistent and every session's quota counter equals the ports of what it owns plus its registration in flight; a registration failing at Run or at Add (name taken concurrently) leaves no key, no name and no quota charge behind and touches no other holder or counter; an immediately refused one changes nothing; close and session end give back exactly the proxy's / session's keys, names and ports; the identical registration submitted afterwards goes through all sections whenever name and keys are free and the ports fit on top of what the session really owns; with no proxy and no registration left all tables are empty and all counters 0. Partial: runtime footprint (goroutines, descriptors) and the resources modelled by C01/C02/C11/C13 are outside this check. Tie: 6000+2000+6000 generated ops per quick run on the real code with full table (and quota counter) dumps.",
-    "note": "Trusted: Lean kernel; hand-written models; release/ports/regrace engines, the verif dump hooks and the reg.checked/reg.ran gates. Not covered here: goroutine/fd footprint, group membership (C13), pooled work connections (C11), idle HTTP backend connections (C02), wrapper close graphs (C01).",
+    "technique": "Lean 4 invariant + exact-state theorems (register∘close = id; failed registration = id; session end = filter; deferred session end; close-graph counts) over all histories / schedules + differential correspondence with the real Control / ResourceController tables and counted work connections of real http / udp proxies",
+    "text": "Proof: in the model of the server's exclusive-key tables (http/https/tcpmux routes, visitor and NAT-hole listeners, proxy names) and of the port manager, for every reachable state: a registration that conflicts at any claim leaves the state exactly as before; explicit close removes exactly the closing proxy's keys and only for the owning session; register followed by close is the identity on the whole state (no table growth, identical re-registration succeeds on any session); session end removes exactly the keys and names of that session's proxies and nothing of other sessions; ports are free immediately after close and all accounting is unchanged by a failed registration (C09 theorems). For registrations of several sessions running concurrently (small-step model: quota charge + Exist | Run | Add, every interleaving by induction over op lists): tables stay consistent and every session's quota counter equals the ports of what it owns plus its registration in flight; a registration failing at Run or at Add (name taken concurrently) leaves no key, no name and no quota charge behind and touches no other holder or counter; an immediately refused one changes nothing; close and session end give back exactly the proxy's / session's keys, names and ports; the identical registration submitted afterwards goes through all sections whenever name and keys are free and the ports fit on top of what the session really owns; with no proxy and no registration left all tables are empty and all counters 0. When a session's control connection drops while its own registration is parked between two sections (every schedule): nothing changes until the registration returned, the teardown then runs within at most two more sections and leaves nothing of the session — no proxy, name, key, flight, counter 0 — whatever the registration's outcome, other sessions untouched; no teardown is pending once no registration is in flight. Work connections of http and udp proxies (the two types whose only handle is the top of the wrapper stack; close graphs from C01): for every combination of encryption, compression and server-side limit and any number k ≥ 1 of Close() calls on the top, the work connection is closed exactly once (udp without any wrapper: every call reaches it); the stack whose limiter closure reads the reassigned variable never closes it under a server-side limit; for every history of register / exchange / take / I-O error / close / session end every connection a proxy let go of is closed (exactly once when guarded), a connection still current belongs to a live udp proxy of the same session, and with no proxy left every connection ever handed out is closed. DEFECT (known finding, witness + bound + repaired clause proved): UDPProxy.Close can be overtaken by its own reader goroutine, frps then installs one more work connection on the closed proxy and leaves it open. Partial: runtime footprint (goroutines, descriptors) and the resources modelled by C01/C02/C11/C13 are outside this check. Tie: 6000+2000+6000 generated ops per quick run on the real code with full table (and quota counter) dumps, plus 320 xport ops (about 20 scenarios of real http/udp proxies with counted work connections) and the udp close race.",
+    "note": "Trusted: Lean kernel; hand-written models; release/ports/regrace/xport/xprace engines (scripted frpc end, counting work connections, bounded waits), the verif dump hooks and the reg.checked/reg.ran/reg.added gates. Known finding: C10-udp-close-late-workconn (repair proposed in hooks/C10-fix-udp-late-workconn.patch). Not covered here: goroutine/fd footprint, group membership (C13), pooled work connections of live sessions (C11), idle HTTP backend connections (C02), close graphs of the tcp-like types / client / visitor leg (C01), a close inside the hand-over window of a udp work connection.",
 }
